@@ -87,9 +87,19 @@ def exc_site(e):
     return frames[-3:]
 
 
+def steal_victim(sim):
+    """the node a steal request is outstanding on (a death there is the interesting crash point)"""
+    node = getattr(getattr(sim.ds, "sched", None), "steal_requested_from_node", None)
+    if node is None:
+        return None
+    return int(node.gateway.id[2:])
+
+
 def run_online(job):
     rnd = random.Random(job["seed"])
     cfg = job.get("cfg") or make_cfg(rnd, job)
+    cfg["overrides"] = {int(k): v for k, v in (cfg.get("overrides") or {}).items()}
+    cfg["collreports"] = {int(k): v for k, v in (cfg.get("collreports") or {}).items()}
     sim = Sim(cfg)
     labels, obs = [], []
     ext_crash_p = job.get("ext_crash_p", 0.0)
@@ -108,11 +118,12 @@ def run_online(job):
             if rnd.random() < 0.03:      # a label that may well be disabled
                 lab = rnd.choice([["main", rnd.randrange(4)], ["recvw", rnd.randrange(4)], ["ctl"],
                                   ["deliver", rnd.randrange(4)], ["recv", rnd.randrange(4)]])
-            elif ext_crash_p and ncrash < 3 and rnd.random() < ext_crash_p:
+            elif ext_crash_p and ncrash < 3 and rnd.random() < ext_crash_p * (6 if steal_victim(sim) is not None else 1):
                 live = [n for n, w in sim.workers.items() if not w.dead and not w.exited]
                 if not live:
                     continue
-                lab = ["crash", rnd.choice(live)]
+                v = steal_victim(sim)
+                lab = ["crash", v if (v in live and rnd.random() < 0.7) else rnd.choice(live)]
                 ncrash += 1
             else:
                 if bias == "ctl-first" and ["ctl"] in acts and rnd.random() < 0.7:
